@@ -454,6 +454,14 @@ def rule_r6(repo, run):
                   "%s must not overwrite a value the user set at this level" % name, am.loc(fn))
 
 
+def rule_x(repo, run):
+    R = run.rule("C14.R7", "a wrap_* option set on a declaration equals the same option on its container: flags are "
+                           "promoted bottom-up through every container level (C15.R6)")
+    from checks import c15
+    from sa.report import import_rules
+    import_rules(run, R, c15, repo, {"C15.R6"}, only=lambda c: c.startswith("ast.PromoteWrap"))
+
+
 def run(repo, run, tier):
     rule_r1(repo, run)
     rule_r2(repo, run)
@@ -461,3 +469,4 @@ def run(repo, run, tier):
     rule_r4(repo, run)
     rule_r5(repo, run)
     rule_r6(repo, run)
+    rule_x(repo, run)
